@@ -44,6 +44,8 @@ EDGE_TEXTS = [
     "0x = 0", "0 = 0x", "2x = 0", "0 + x = 0", "x + 0 = 0 + y", "1x = 1", "-x = -1", "x / 1", "0 / x", "x / -1", "1 / -x", "0 - x", "x - 0", "x - -0", "0 - -x", "4 + -0",
     "4 + -0x", "0 + 0", "0 * 0", "0 - 0", "0^0", "1^0", "0^1", "2^0", "-(0 + 0)", "-(0 * 5)", "(0x * 2) + 3", "0 + (0 + x)", "0 * (0 * x)", "1 * (1 * x)", "(0q * 10y^3) * x",
     "x * (y + 0)", "0 * (x + y)", "(x + x) * (x + x)", "(x + y) + (x + y)", "(x * x) * (x * x)", "x * (x * x)", "2x^2 * 2x^2", "x = x", "x + 1 = x + 1", "2x + 1 = 2x + 1",
+    "3x - (2x + 5)", "(7 + y) - (y + 2z)", "4z - ((z + 1) + y)", "3x - 2x", "(4 + x) - x", "x - (x - 1)", "x / (x * y)", "x^2 / x", "(x / y) / x", "6 / (3 / x)",
+    "2x - (3 - 2x)", "y - (y + 20) = 100 - 120", "x * y / x", "(2 - x) - x", "-(x + x)", "-(2x) + 2x", "sgn(x) + sgn(x)", "2sgn(x) + 3sgn(x)", "x! " if False else "3! + 3!",
     "1.5x + 1.5x", "0.1x + 0.2x", "0.1 + 0.2", "0.1 * 3", "1 / 3", "2 / 3 * 3", "10 * 0.1", "1000000 * 1000000", "99999 * 99999 + 1", "7x + 7x^1", "x^2 + x^2.0",
 ]
 
